@@ -149,7 +149,7 @@ def nselem_case(rng):
 
 LANG_NEUTRAL = [' tal:define="v 1"', ' tal:condition="True"', ' i18n:domain="d"', ' meta:interpolation="true"', ' metal:define-macro="m1"',
                 ' xmlns:tal="%s"' % TAL, ' xmlns:i18n="%s"' % I18N, ' xmlns:metal="%s"' % METAL, ' xmlns:zz="%s"' % TAL, ' zz:omit-tag="nothing"',
-                ' data-tal-define="u 2"', ' data-i18n-context="c"', ' tal:omit-tag="python: False"']
+                ' data-tal-define="u 2"', ' data-i18n-context="c"', ' tal:omit-tag="python: False"', ' data-meta-interpolation="false"']
 
 
 def direct_case(rng):
@@ -162,15 +162,19 @@ def direct_case(rng):
         parts.append([' xmlns:ZZ="urn:zz" ZZ:omit-tag="kept"', ' xmlns:TAL="urn:other" TAL:define="kept"', ' xmlns:I18N="urn:i" I18N:domain="kept"'][k])
         langs.append([' zz:omit-tag="nothing"', ' tal:define="v 1"', ' i18n:domain="d"'][k])
         langs = list(dict.fromkeys(langs))
-    data = any('data-tal' in l or 'data-i18n' in l for l in langs)
+    if ' data-meta-interpolation="false"' in langs and ' meta:interpolation="true"' in langs:
+        langs.remove(' meta:interpolation="true"')
+    data = any('data-tal' in l or 'data-i18n' in l or 'data-meta' in l for l in langs)
+    # the meta statement in data form switches interpolation off for the element's text (and must not reach the output)
+    body = 'x${7}' if data and ' data-meta-interpolation="false"' in langs else 'x7'
     if any(' zz:' in l for l in langs) and not any('xmlns:zz' in l for l in langs):
         langs.append(' xmlns:zz="%s"' % TAL)
     seq = [(p, True) for p in parts] + [(l, False) for l in langs]
     rng.shuffle(seq)
     # a prefix must be declared on the element or an ancestor: put declarations first for zz when needed is not required
     # (update_namespace runs over all attributes before resolution)
-    src = '<a' + ''.join(s for s, _ in seq) + '>x</a>'
-    exp = '<a' + ''.join(s for s, keep in seq if keep) + '>x</a>'
+    src = '<a' + ''.join(s for s, _ in seq) + '>x${7}</a>'
+    exp = '<a' + ''.join(s for s, keep in seq if keep) + '>%s</a>' % body
     cfg = {'enable_data_attributes': True} if data else rng.choice([{}, {'enable_data_attributes': True}])
     return {'src': src, 'vars': [], 'objs': [], 'cfg': cfg}, exp
 
